@@ -997,13 +997,17 @@ func headerFieldSources(fn *ssa.Function, peek bool) (map[string]hdrSrc, int64, 
 		w := map[string]int64{"Uint16": 2, "Uint32": 4, "Uint64": 8}[cal.Name()]
 		arg := call.Call.Args[1]
 		off := int64(0)
-		if sl, ok := arg.(*ssa.Slice); ok {
+		for depth := 0; depth < 4; depth++ {
+			sl, ok := arg.(*ssa.Slice)
+			if !ok {
+				break
+			}
 			if sl.Low != nil {
 				k, isK := constInt(sl.Low)
 				if !isK {
 					return hdrSrc{}, false
 				}
-				off = k
+				off += k
 			}
 			arg = sl.X
 		}
